@@ -11,24 +11,22 @@ def run(ctx):
         "division dispatch",
     ]
     ctx.lean(props=["Props.C01"], drivers=["drv_c01"])
-    # The full division statement (C01.divMod_spec_Statement) is proved from two named kernel contracts
-    # (divMod_spec_partial).  The contracts themselves are not proved: they are listed as open obligations so that the
-    # discharged/obligations ratio does not overstate the proof.
-    for k, what in (("U128.Divlu64Spec", "divmod128by64 (Knuth D on 32-bit digits) returns floor quotient and remainder"),
-                    ("U128.Div128Spec", "estimate-and-correct branch of divmod128by128 (divisor wider than a word)")):
-        ctx.theorems.append({"name": "C01.divMod_spec_Statement needs " + k + " [open: " + what + "]",
-                             "axioms": None, "ok": False})
+    # Division is proved end to end (no open obligation): dispatch, fast paths and all three kernels
+    # (divmod128bin_spec, divmod128by64_spec, divmod128by128_spec) give C01.divMod_spec / C01.idivMod_spec for every
+    # operand pair with a non-zero divisor.
     ctx.assumptions += [
         "Division: dispatch, /0 panic, /1, 64-bit fast path, power-of-two path, u<n, u=n, Div/Mod = components of "
-        "DivMod, the ...64 entry points = the 128-bit ones on the zero-extended divisor, and the high/low split of the "
-        "word-divisor case are proved, and so is the binary kernel divmod128bin (divmod128bin_spec, divMod_spec_bin).  "
-        "The two Knuth kernels (divmod128by64, the estimate branch of divmod128by128) are covered by the named "
-        "hypotheses Divlu64Spec / Div128Spec of C01.divMod_spec_partial and by the correspondence run only (every path and every correction count is hit on "
-        "each run: tag_histogram).",
+        "DivMod, the ...64 entry points = the 128-bit ones on the zero-extended divisor, the high/low split of the "
+        "word-divisor case and all three kernels are proved: divmod128bin (divmod128bin_spec), divmod128by64 = Knuth D "
+        "on 32-bit digits with both correction loops (divmod128by64_spec, Lemmas/U128Knuth.lean: corr_spec, "
+        "corrLoop_eq, digit_spec, rem_spec, divluCore_spec) and the estimate-and-correct branch of divmod128by128 "
+        "(divmod128by128_spec: est_bounds, final_corr).  C01.divMod_spec, div_mod_spec and div_mul_add_mod therefore "
+        "hold with no hypothesis other than a non-zero divisor.  The correction loops are modelled as a fuelled "
+        "recursion (fuel 4; the proof shows it is never exhausted); the path pass still checks that every path and "
+        "every correction count is hit on each run (tag_histogram).",
         "Signed DivMod (magnitudes, sign fix-up, MinInt128 wrap; Div and Mod as its components; DivMod64 as DivMod of the "
-        "sign-extended operand) is proved against Int.tdiv / Int.tmod from the unsigned statement "
-        "(C01.idivMod_spec_partial, same two kernel hypotheses).  Int128.Div64 (its own sign fix-up on an int64) is "
-        "covered by the correspondence run and idiv_zero_panics only.",
+        "sign-extended operand) is proved against Int.tdiv / Int.tmod (C01.idivMod_spec, idiv_mul_add_mod, no kernel "
+        "hypothesis), and so is Int128.Div64 with its own sign fix-up on an int64 (C01.idiv64_spec).",
     ]
     ctx.harness("./cmd/c01")
     ctx.diff(area="int128", driver="drv_c01", n={"quick": 200000, "thorough": 20000000},
